@@ -220,8 +220,8 @@ PROPS = {
         "assumes": ["closures neither panic (poisoning) nor re-enter apply"],
     },
     "C04": {
-        "level_text": "Coq theorems: the set's content address and the verdict of set validation are invariant under permutation of the solutions; acceptance guarantees unique keys per solution only - the whole-set statement is refuted with a concrete accepted witness on which the post-state depends on the order (known finding F10); for sets whose (contract, key) slots are pairwise distinct the proposed value of every slot and the whole post-state view read by the second pass are order independent. Partial: the lift of order independence to the complete two-pass result (verdict, gas, computed mutations per solution) is decided by the correspondence, which runs content_addr, check_set and the two-pass check on ALL permutations of generated sets of 1..3 solutions (shared and distinct contracts, overlapping keys) and compares them.",
-        "properties": "Properties/C04",
+        "level_text": "Coq theorems: the set's content address and the verdict of set validation are invariant under permutation of the solutions; acceptance guarantees unique keys per solution only - the whole-set statement is refuted with a concrete accepted witness on which the post-state depends on the order (known finding F10); for sets whose (contract, key) slots are pairwise distinct the proposed value of every slot and the whole post-state view read by the second pass are order independent, exec depends on the solution list only through the solution being checked and the SET of predicate-data hashes, the per-solution check does not depend on the position of the solution, and the complete two-pass result corresponds under the permutation (same verdict, same gas, same computed mutations per solution; C04_two_pass_perm). The correspondence runs content_addr, check_set and the two-pass check on ALL permutations of generated sets of 1..3 solutions (shared and distinct contracts, overlapping keys) and compares them.",
+        "properties": ["Properties/C04", "Properties/C04TwoPass"],
         "corr": ["Corr/RunGraph"],
         "engines": [{"engine": "perm", "quick": 500, "thorough": 12000}],
         "rule": "sets of 1..3 solutions over two contracts with declared and computed mutations from a shared key pool, all 1/2/6 permutations "
